@@ -98,10 +98,28 @@ def fraction_values(ctx, r, n, dens):
         if not (c == fv) or c is fv or c.GetFraction() is fv.GetFraction() or float(c) != got:
             ctx.violation("copy-differs-or-shares-its-fraction", dict(case, copied=repr(c)), replay=case)
         else:
+            # explicit edits - through the setters and through the Fraction object itself - are followed by
+            # float() and the order operators at once (the amount is number + fraction *now*)
+            float(c)
+            den_before = Fr(c.GetFraction().denominator)
             c.SetNumber(12345)
             c.GetFraction().numerator = 7
             if float(fv) != got:
                 ctx.violation("editing-a-copy-changed-the-original", case, replay=case)
+            want_c = Fr(12345) + Fr(7) / den_before
+            if abs(Fr(float(c)) - want_c) > 4 * Fr(math.ulp(12346.0)) or not (c > fv or float(fv) >= 12345):
+                ctx.violation("float()-stale-after-editing-the-fraction-in-place", dict(case, edited=repr(c), float=float(c), expected=float(want_c)), replay=case)
+            e2 = copy.copy(fv)
+            lt_before = e2 < FractionValue(10**7)
+            e2.GetFraction()[0] = 3 * 10**9 * int(e2.GetFraction().denominator)  # numerator := 3e9 x the denominator it has now
+            if float(e2) < 2.9e9 or (e2 < FractionValue(10**7)) or not lt_before and float(fv) < 10**7:
+                ctx.violation("float()-stale-after-editing-the-fraction-in-place", dict(case, edited=repr(e2), float=float(e2)), replay=case)
+            e3 = copy.copy(fv)
+            float(e3)
+            e3.SetFraction((5, 1))
+            e3.SetNumber(1)
+            if float(e3) != 6.0:
+                ctx.violation("float()-stale-after-the-setters", dict(case, edited=repr(e3), float=float(e3)), replay=case)
         d = copy.deepcopy(fv)
         if not (d == fv) or float(d) != got:
             ctx.violation("deepcopy-differs", dict(case, copied=repr(d)), replay=case)
@@ -276,6 +294,20 @@ def fraction_scalars(ctx, db, aff, r):
                 continue
             if fs.GetUnit() != u or float(fs.GetValue()) != x or float(fs.GetValue(u)) != x:
                 ctx.violation("FractionScalar-own-unit-value-differs", dict(case, value=repr(fs.GetValue(u))), replay=case)
+            # the public classmethod, with the quantity given as a string and as Quantity objects (its own unit
+            # may be any unit of the type: from_unit says what the value is written in)
+            from barril.units import ObtainQuantity
+
+            for label, qarg in (("str", qt), ("Quantity(from unit)", ObtainQuantity(u)), ("Quantity(target unit)", ObtainQuantity(v)), ("Quantity(base unit)", ObtainQuantity(db.GetBaseUnit(qt)))):
+                ctx.ev()
+                try:
+                    cv = FractionScalar.ConvertFractionValue(fv, qarg, u, v)
+                    if abs(float(cv) - ref) > tol:
+                        ctx.violation("ConvertFractionValue(%s)-differs-from-Scalar" % label, dict(case, got=float(cv), expected=ref), replay=case)
+                    if float(fv) != x:
+                        ctx.violation("ConvertFractionValue-changed-its-argument", dict(case, now=repr(fv)), replay=case)
+                except Exception as e:
+                    ctx.violation("ConvertFractionValue(%s)-raised:%s" % (label, type(e).__name__), dict(case, error=str(e)[:160]), replay=case)
             # the database's own conversion of a FractionValue
             ctx.ev()
             try:
